@@ -26,13 +26,58 @@ fn classify_lenient_diff(s: &str, strict: &UserInputAst, lenient: &UserInputAst,
     } else if count(&jl, "\"type\":\"range\"") > count(&js, "\"type\":\"range\"") && (s.contains('<') || s.contains('>')) {
         // the lenient grammar commits to a range at `<`/`>`, the strict one falls back to a word
         KEY_LENIENT_RANGE_COMMIT
-    } else if errs.iter().any(|e| e == "missing space") || (!s.contains('\\') && unquoted_words(&serde_json::to_value(lenient).unwrap_or(Value::Null)).iter().any(|w| w.chars().any(|c| "`{}\"'[]()".contains(c)))) {
-        // the strict grammar accepts clauses that touch (`a(b)`, `"a"b`, `a^2b`) and ends a word at
-        // quotes/brackets; the lenient grammar wants a space and lets a word run on to `)`/`^`
+    } else if cs.windows(5).any(|w| w[0] == 'N' && w[1] == 'O' && w[2] == 'T' && w[3].is_whitespace() && (w[4] == ':' || w[4].is_whitespace())) && js.contains("\"field_name\":\"NOT\"") {
+        // `NOT :b`: strict reads a field named NOT, lenient the negation keyword
+        KEY_LENIENT_NOT_FIELD
+    } else if s.contains('\\') && count(&js, "\"type\":\"range\"") >= 1 && count(&jl, "\"type\":\"range\"") >= 1 && (s.contains('<') || s.contains('>')) {
+        // `< sp\ ace`: the strict range bound (relaxed_word) knows no escapes, the lenient one does
+        KEY_LENIENT_RANGE_ESCAPE
+    } else if neg_number_touching(&cs) ||
+        errs.iter().any(|e| e == "missing space") || touching_family(strict, lenient, errs) {
+        // the strict grammar accepts clauses that touch (`a(b)`, `"a"b`, `a^2b`, `-1.~5`) and ends a
+        // word at quotes/brackets; the lenient grammar wants a space and lets a word run on
         KEY_LENIENT_ADJACENT
     } else {
         "C16:lenient-differs-from-strict"
     }
+}
+
+/// `-5s`: strict reads the number `-5` and a touching word `s`
+fn neg_number_touching(cs: &[char]) -> bool {
+    let mut i = 0;
+    while i + 1 < cs.len() {
+        if cs[i] == '-' && cs[i + 1].is_ascii_digit() {
+            let mut j = i + 1;
+            while j < cs.len() && (cs[j].is_ascii_digit() || cs[j] == '.') {
+                j += 1;
+            }
+            if j < cs.len() && !cs[j].is_whitespace() && !")^~*]}".contains(cs[j]) {
+                return true;
+            }
+            i = j;
+        } else {
+            i += 1;
+        }
+    }
+    false
+}
+
+/// lenient kept together what strict split (fewer leaves, no error), or a lenient unquoted word
+/// contains a character at which the strict `word` rule ends and strict has no such word
+fn touching_family(strict: &UserInputAst, lenient: &UserInputAst, errs: &[String]) -> bool {
+    let vs = serde_json::to_value(strict).unwrap_or(Value::Null);
+    let vl = serde_json::to_value(lenient).unwrap_or(Value::Null);
+    let ws = unquoted_words(&vs);
+    let wl = unquoted_words(&vl);
+    let special = |w: &String| w.chars().any(|c| "`{}\"'[]()".contains(c));
+    if wl.iter().any(|w| special(w) && !ws.contains(w)) {
+        return true;
+    }
+    let leaves = |v: &Value| {
+        let t = v.to_string();
+        ["\"type\":\"literal\"", "\"type\":\"range\"", "\"type\":\"set\"", "\"type\":\"all\"", "\"type\":\"exists\""].iter().map(|k| t.matches(k).count()).sum::<usize>()
+    };
+    errs.is_empty() && leaves(&vs) > leaves(&vl)
 }
 
 fn unquoted_words(v: &Value) -> Vec<String> {
